@@ -18,7 +18,9 @@ CHECKS = {
  "C05": ("S", S_TECH, "Every pipeline (depth<=2, combining operators) over hot sources with unsubscribe at every position of every history (also twice, also after the terminal); oracle: nothing delivered in or after the step in which unsubscribe returned, second unsubscribe is a no-op, is_subscribed truth table. (Cross-thread clause: engine T scenarios, see DESIGN §7 C05.)", "§5, §7 C05", S_NOTE),
  "C06": ("S", S_TECH, "Every pipeline over probe sources (observer.is_subscribed() read after every step; polite/endless producers counted) for every terminating cause (unsubscribe at every position, terminal, take/first/element_at/take_while/contains/all/take_until/amb/retry/erroring sibling); oracle: a source the reference no longer needs reads is_subscribed()==false and makes no further emission.", "§5, §7 C06", S_NOTE),
  "C08": ("T", T_TECH, "Every schedule with <= c preemptions (c=2..3 quick, 3..5 thorough) of 10-13 closed post/abort histories over 1..3 poster threads and the worker runs the real AsyncFunctionQueue/NewThreadScheduler to completion; oracle: tasks disjoint, at most once, FIFO w.r.t. real-time order of post calls, one worker thread, no lost wake-up, nothing dequeued after abort returned, worker exits after abort.", "§4, §7 C08", T_NOTE),
+ "C10": ("S", S_TECH, "All call sequences of length <= 6 (thorough 7) over {subscribe_i, unsubscribe_i (i<3, also repeated), next(v) (v<2), error, complete} (observers named in subscription order) on Subject/BehaviorSubject/ReplaySubject/AsyncSubject, observers attached directly and through map; oracle: four reference state machines compared stepwise per observer, and the subject's observer count after every call.", "§5, §7 C10", S_NOTE),
  "C12": ("T", T_TECH, "Subject/BehaviorSubject/ReplaySubject with 1-2 producer threads, a subscribing thread and an unsubscribing thread, two observer iteration orders (hash seeds); every schedule with <= 2 (thorough 3-4) preemptions; oracle: resident observers get every item once in per-producer order, leaving/late observers a gap-free prefix/suffix, late Replay/Behavior subscribers the full history once.", "§4, §7 C12", T_NOTE),
+ "C13": ("S", S_TECH, "All call sequences of length <= 6 (thorough 7) over {subscribe_i, unsubscribe_i, connect, disconnect, source emits v, source completes, source errors} on publish/ref_count/replay, with a hot manual source and with 6 cold sources that emit synchronously inside connect/first-subscribe; oracle: reference machines (per-subscriber events stepwise, number of live source subscriptions after every call, total source subscriptions).", "§5, §7 C13", S_NOTE),
  "C14": ("S", S_TECH, "Every pipeline (depth<=2, under retry, combining operators) subscribed 2-3 times to the SAME Observable value: sequentially over cold sources whose k-th subscription differs, and mid-stream on a hot source (also after the first left); oracle: each subscriber equals the reference for an independent pipeline instance; tap side effects per subscription.", "§5, §7 C14", S_NOTE),
  "C17": ("S", S_TECH, "Every pipeline (depth<=2, combining operators) x every way of ending (terminal, unsubscribe at every position); an Arc token is captured by the 3 subscriber callbacks, by every closure handed to an operator and carried by every item; oracle: after the end and after dropping all handles every token has exactly one owner.", "§5, §7 C17", S_NOTE),
  "C18": ("T", T_TECH, "A source thread emitting <=2 items then complete/error against a minimal block_on (facade Mutex/Condvar + std::task::Wake) polling to_vec(); every schedule with <= 3 (thorough 4-6) preemptions; oracle: result equals the script, Ready never before the source's terminal, main never parked forever (lost wake-up).", "§4, §7 C18", T_NOTE),
